@@ -155,8 +155,9 @@ func (e *kvElection) handleWatchEvent(entry Entry) {
 
 	// If we're the leader, check if we're still the leader
 	if e.IsLeader() {
-		// If the new leader ID is different, we've been taken over
-		if newLeaderID != e.cfg.InstanceID {
+		// If the new leader ID is different, we've been taken over.
+		// Ignore late notifications about versions older than our own record.
+		if newLeaderID != e.cfg.InstanceID && entry.Revision() > e.revision.Load() {
 			log := e.getLogger()
 			log.Warn("leadership_lost_via_watcher",
 				append(e.logWithContext(e.ctx),
